@@ -54,6 +54,13 @@ func planFor(id string) *Plan {
 
 var plans = []Plan{
 	{
+		ID: "C11", Level: "exploration",
+		Rule: "generated registration of 1-4 redirect URIs from a component grammar (https/http/custom/opaque schemes, names, IPv4/IPv6 loopback and non-loopback literals, localhost names, ports, paths, queries) x requested redirect_uri built from a registered one by 0-2 named near-miss edits (case, trailing slash, port, look-alike host, localhost swap, userinfo insertion/confusion, path append/dot-dot/case/percent-encoding, query add/reorder/drop, fragment, scheme swap, relative, empty, backslash, whitespace, IPv6/IPv4-mapped loopback) x response type x response mode x an error injected before (unknown client) or after (scope, state, response type/mode, audience, consent denied) redirect validation, also through PAR; oracle on the written bytes: the base of any Location / form action is string-identical to a registered URI or satisfies the loopback rule (netip), no fragment of its own, absolute; a request whose redirect_uri does not qualify per an independent component-level reference gets no redirect; codes never go to plain-http non-local targets. Non-trivial: requested URI differs from every registered string, or an error is injected after validation; distinct by (edits, type, mode, injected error, outcome).",
+		Jobs: []Job{{Test: "TestC11_RedirectTargets", Shards: [2]int{16, 16}, Checks: [2]int{600, 15000}, Timeout: [2]int{600, 3000}}},
+		Fuzz: []Fuzz{{Target: "FuzzC11RedirectMatch", Time: "90s"}},
+	},
+
+	{
 		ID: "C10", Level: "exploration",
 		Rule: "generated client registration (plain / OpenID Connect client with each token_endpoint_auth_method incl. unsupported ones, public or confidential, 0-3 rotated secrets, client ids and secrets with URL-special and non-ASCII characters, real bcrypt) x credential transport (Basic form-encoded, Basic raw, body, both, neither, id only, malformed header, client assertion by registered / unregistered key) x secret relation (current, rotated, wrong, empty, other client's, the stored hash, prefix, extended) x endpoint (token with client_credentials / authorization_code / refresh_token / password / device_code / jwt-bearer, revocation, PAR, device authorization), each request otherwise valid; oracle: necessary condition computed independently (a transport the method permits carried a valid secret or a valid assertion), refused requests must be invalid_client/invalid_request and must not write code/token records (storage recorder), canonical valid credentials must pass. Non-trivial: the client is confidential (the request reaches method gating / secret comparison); distinct by (registration, endpoint, transport, relation).",
 		Jobs: []Job{{Test: "TestC10_ClientAuthentication", Shards: [2]int{16, 16}, Checks: [2]int{300, 8000}, Timeout: [2]int{600, 3000}}},
